@@ -4,6 +4,7 @@ use crate::dd::{cos_sin_2pi, CDD};
 use crate::exec::*;
 use crate::gen::{is_zero_vec, make_input, to_pairs};
 use crate::refdft::{self, Prec};
+use crate::checks2::first_nonfinite;
 use crate::types::*;
 use rustfft::num_complex::Complex;
 use rustfft::Fft;
@@ -53,6 +54,20 @@ pub fn obtain<T: Real>(case: &Case) -> Result<Arc<dyn Fft<T>>, Outcome> {
     if let Some(f) = hit {
         return Ok(f);
     }
+    let built = obtain_uncached::<T>(case)?;
+    FFT_CACHE.with(|c| {
+        let mut c = c.borrow_mut();
+        if c.len() >= 6 {
+            c.remove(0);
+        }
+        c.push((key, Box::new(Arc::clone(&built))));
+    });
+    Ok(built)
+}
+
+/// Always builds a NEW instance from a NEW planner (never served from the harness's transform cache): an instance no call
+/// has touched yet.
+pub fn obtain_uncached<T: Real>(case: &Case) -> Result<Arc<dyn Fft<T>>, Outcome> {
     let built: Arc<dyn Fft<T>> = match &case.source {
         Source::Plan => {
             let mut pl = match AnyPlanner::<T>::new(case.planner) {
@@ -93,13 +108,6 @@ pub fn obtain<T: Real>(case: &Case) -> Result<Arc<dyn Fft<T>>, Outcome> {
             Err(e) => return Err(e),
         },
     };
-    FFT_CACHE.with(|c| {
-        let mut c = c.borrow_mut();
-        if c.len() >= 6 {
-            c.remove(0);
-        }
-        c.push((key, Box::new(Arc::clone(&built))));
-    });
     Ok(built)
 }
 
@@ -185,6 +193,11 @@ pub fn tolerance_factor(prop: &str) -> f64 {
     }
 }
 
+enum OutVec<T: Real> {
+    Plain(Vec<Complex<T>>),
+    Scaled(Vec<Complex<f64>>),
+}
+
 pub fn k_numeric<T: Real>(case: &Case) -> Outcome {
     let fft = match obtain::<T>(case) {
         Ok(f) => f,
@@ -222,33 +235,60 @@ pub fn k_numeric<T: Real>(case: &Case) -> Outcome {
             None => Outcome::held(false).label("input:all-zero"),
         };
     }
-    let reference = reference_for::<T>(case, &input);
+    // extreme-scale inputs: judge (output * 2^-e) against the reference of the unscaled vector (exact rescaling)
+    let xs = crate::gen::xscale_exp::<T>(&case.input.family, case.input.seed, n);
+    let (reference, out) = match xs {
+        Some(e) => {
+            let mut base_case = case.clone();
+            base_case.input = crate::gen::xscale_base(&case.input);
+            let base = make_input::<T>(&base_case.input, n, case.chunks);
+            let r = reference_for::<T>(&base_case, &base);
+            let sc = (-(e as f64)).exp2();
+            if let Some(j) = first_nonfinite(&out) {
+                return Outcome::bad(format!(
+                    "finite input scaled by 2^{} (all values normal, n^1.5*max|x| at least 2^24 below overflow) produced a non-finite output: element {} is ({},{})",
+                    e, j, out[j].re, out[j].im
+                ));
+            }
+            let scaled: Vec<Complex<f64>> = out.iter().map(|c| Complex { re: c.re.to_f64() * sc, im: c.im.to_f64() * sc }).collect();
+            (r, OutVec::Scaled(scaled))
+        }
+        None => (reference_for::<T>(case, &input), OutVec::Plain(out)),
+    };
     let b = bound(n, T::EPS);
     // p[0] = 1 selects the C02 bound itself
     let factor = if case.pget(0) == 1 { 1.0 } else { tolerance_factor(&case.prop) };
     let mut worst = 0.0f64;
-    for (ci, (o, r)) in out.chunks(n).zip(reference.chunks(n)).enumerate() {
+    let out_pairs: Vec<(f64, f64)> = match &out {
+        OutVec::Plain(o) => to_pairs(o),
+        OutVec::Scaled(o) => o.iter().map(|c| (c.re, c.im)).collect(),
+    };
+    for (ci, (o, r)) in out_pairs.chunks(n).zip(reference.chunks(n)).enumerate() {
         if is_zero_vec(&input[ci * n..(ci + 1) * n]) {
-            if let Some(j) = o.iter().position(|c| c.re.to_f64() != 0.0 || c.im.to_f64() != 0.0) {
-                return Outcome::bad(format!("silent (all-zero) chunk {} produced a non-zero/non-finite output: element {} is ({},{})", ci, j, o[j].re, o[j].im));
+            if let Some(j) = o.iter().position(|c| c.0 != 0.0 || c.1 != 0.0) {
+                return Outcome::bad(format!("silent (all-zero) chunk {} produced a non-zero/non-finite output: element {} is ({},{})", ci, j, o[j].0, o[j].1));
             }
             continue;
         }
-        let e = refdft::rel_l2(&to_pairs(o), r);
+        let e = refdft::rel_l2(o, r);
         if !(e <= factor * b) {
             // locate the worst element for the report
             let nr = refdft::norm2(r);
             let (mut wk, mut wd) = (0usize, 0.0f64);
             for (k, (ov, rv)) in o.iter().zip(r.iter()).enumerate() {
-                let d = ((ov.re.to_f64() - rv.re.hi).powi(2) + (ov.im.to_f64() - rv.im.hi).powi(2)).sqrt();
+                let d = ((ov.0 - rv.re.hi).powi(2) + (ov.1 - rv.im.hi).powi(2)).sqrt();
                 if d > wd || d.is_nan() {
                     wd = d;
                     wk = k;
                 }
             }
             return Outcome::bad(format!(
-                "output differs from the DFT: relL2 error {:.3e} > {}*B = {:.3e} (B=16*eps*log2(2n)) in chunk {}; worst index k={} got ({},{}) want ({:.9e},{:.9e}), |diff|/||Y||={:.3e}",
-                e, factor, factor * b, ci, wk, o[wk].re, o[wk].im, r[wk].re.hi, r[wk].im.hi, wd / nr
+                "output differs from the DFT{}: relL2 error {:.3e} > {}*B = {:.3e} (B=16*eps*log2(2n)) in chunk {}; worst index k={} got ({:e},{:e}) want ({:.9e},{:.9e}), |diff|/||Y||={:.3e}",
+                match xs {
+                    Some(e) => format!(" (input = ordinary dense vector * 2^{}, output compared after the exact rescaling by 2^{})", e, -e),
+                    None => String::new(),
+                },
+                e, factor, factor * b, ci, wk, o[wk].0, o[wk].1, r[wk].re.hi, r[wk].im.hi, wd / nr
             ));
         }
         worst = worst.max(e / b);
